@@ -43,6 +43,12 @@ type Destination struct {
 	// stopStream is a function that closes the context of the stream.
 	stopStream context.CancelFunc
 
+	// stopAsync releases the persist callback registered by Open once the
+	// connector is going down (Teardown, or Open itself failing): from then
+	// on nobody reads errs, and a callback blocked on it would keep
+	// Persister.WaitPendingWrites - and with it StopAndWait - from returning.
+	stopAsync context.CancelFunc
+
 	// wg tracks the number of in flight calls to the connectorPlugin.
 	wg sync.WaitGroup
 }
@@ -86,6 +92,9 @@ func (d *Destination) Open(ctx context.Context) (err error) {
 				d.Instance.logger.Err(ctx, tdErr).Msg("could not tear down destination connector plugin")
 			}
 			d.plugin = nil
+			if d.stopAsync != nil {
+				d.stopAsync()
+			}
 		}
 	}()
 
@@ -105,9 +114,14 @@ func (d *Destination) Open(ctx context.Context) (err error) {
 			// when a lifecycle event is successfully triggered we consider the config active
 			d.Instance.LastActiveConfig = d.Instance.Config
 			// persist connector in the next batch to store last active config
+			asyncCtx, stopAsync := context.WithCancel(context.Background())
+			d.stopAsync = stopAsync
 			err := d.Instance.persister.Persist(ctx, d.Instance, func(err error) {
 				if err != nil {
-					d.errs <- err
+					select {
+					case d.errs <- err:
+					case <-asyncCtx.Done():
+					}
 				}
 			})
 			if err != nil {
@@ -167,6 +181,9 @@ func (d *Destination) Teardown(ctx context.Context) error {
 	// close stream
 	if d.stopStream != nil {
 		d.stopStream()
+	}
+	if d.stopAsync != nil {
+		d.stopAsync()
 	}
 
 	// wait for any calls to the plugin to stop running first (e.g. Stop, Ack or Write)
